@@ -96,7 +96,15 @@ pub fn drivers(spec: SpecId) -> Vec<Driver> {
             ("transfer(e0->e1)".to_string(), transfer(eoa(0), 0, eoa(1), 1)),
             ("pc.fault-ignore(S,1)(e1)".to_string(), call(eoa(1), 0, pc_addr(PC_FAULT_IGNORE), &[word_addr(contract(9)), word(1)])),
         ];
-        let mut case = Case::new("pc-fault-ignore", spec, db, txs);
+        let mut case = Case::new("pc-fault-ignore", spec, db.clone(), txs);
+        case.precompiles = Some(all());
+        v.push(Driver { case, stale_keys: vec![] });
+        // ... and one that answers a failed read with its own *halt*: the database fault is fatal all the same
+        let txs = vec![
+            ("transfer(e0->e1)".to_string(), transfer(eoa(0), 0, eoa(1), 1)),
+            ("pc.read-halt(S,1)(e1)".to_string(), call(eoa(1), 0, pc_addr(PC_READ_ERR_TO_HALT), &[word_addr(contract(9)), word(1)])),
+        ];
+        let mut case = Case::new("pc-read-err-to-halt", spec, db, txs);
         case.precompiles = Some(all());
         v.push(Driver { case, stale_keys: vec![] });
     }
